@@ -475,14 +475,14 @@ def mask_span(m):
 # ---------------------------------------------------------------------------
 # solver stack for feasibility pruning (incremental, mirrors the path condition)
 # ---------------------------------------------------------------------------
-class SolverStack:
-    def __init__(self, timeout_ms=400):
+class _Inc:
+    """incremental solver whose assertion stack mirrors a path condition"""
+
+    def __init__(self, timeout_ms):
         self.s = z3.Solver()
         self.s.set('timeout', timeout_ms)
-        self.stack = []      # ids
-        self.keep = []       # keep asts alive
-        self.n_checks = 0
-        self.cache = {}
+        self.stack = []
+        self.keep = []
 
     def sync(self, pc):
         n = 0
@@ -499,13 +499,61 @@ class SolverStack:
             self.stack.append(f.get_id())
             self.keep.append(f)
 
-    def model_value(self, pc, term):
+    def check(self, pc, extra):
         self.sync(pc)
+        self.s.push()
+        self.s.add(extra)
+        r = self.s.check()
+        self.s.pop()
+        return str(r)
+
+
+_QCACHE = {}
+
+
+def has_quantifier(f):
+    i = f.get_id()
+    r = _QCACHE.get(i)
+    if r is not None:
+        return r[0]
+    seen = set()
+    stack = [f]
+    found = False
+    while stack:
+        t = stack.pop()
+        ti = t.get_id()
+        if ti in seen:
+            continue
+        seen.add(ti)
+        if z3.is_quantifier(t):
+            found = True
+            break
+        stack.extend(t.children())
+    _QCACHE[i] = (found, f)
+    return found
+
+
+import os as _os
+FULL_PRUNE = _os.environ.get('PYVC_FULL_PRUNE', '0') == '1'
+
+
+class SolverStack:
+    """feasibility pruning: a quantifier-free approximation of the path condition first (fast, sound for
+    'unsat'), the full path condition with a short budget second"""
+
+    def __init__(self, timeout_ms=250):
+        self.qf = _Inc(timeout_ms)
+        self.full = _Inc(timeout_ms)
+        self.n_checks = 0
+        self.cache = {}
+
+    def model_value(self, pc, term):
+        self.full.sync(pc)
         self.n_checks += 1
-        if self.s.check() != z3.sat:
+        if self.full.s.check() != z3.sat:
             return None
         try:
-            return self.s.model().eval(term, model_completion=True)
+            return self.full.s.model().eval(term, model_completion=True)
         except Exception:
             return None
 
@@ -514,13 +562,11 @@ class SolverStack:
         key = (tuple(f.get_id() for f in pc), extra.get_id())
         if key in self.cache:
             return self.cache[key][0]
-        self.sync(pc)
-        self.s.push()
-        self.s.add(extra)
         self.n_checks += 1
-        r = self.s.check()
-        self.s.pop()
-        res = str(r)
+        qpc = [f for f in pc if not has_quantifier(f)]
+        res = self.qf.check(qpc, extra) if not has_quantifier(extra) else 'sat'
+        if res != 'unsat' and len(qpc) != len(pc) and FULL_PRUNE:
+            res = self.full.check(pc, extra)
         self.cache[key] = (res, pc, extra)
         return res
 
@@ -609,6 +655,9 @@ class State:
         self.arr_bound = {}      # id of a havocked array constant -> allocation bound at the time of the havoc
         self.wf_done = set()
         self.merge_info = {}
+        self.assuming = 0        # >0 while evaluating a formula that will be assumed
+        self.conj_ctx = True     # the sub-formula being evaluated is reached through conjunctions only
+        self.kf_assumed = []     # assumed keys_forall facts, instantiated eagerly at table look-ups
         self.obligations = []
         self.spec = 0            # >0 : spec-mode evaluation (pure)
         self.side = []           # side conditions collected in spec mode (bv overflow etc.)
@@ -695,6 +744,13 @@ class State:
             return
         if kind == 'len':
             self.pc.append(z3.ForAll([r], z3.Select(base, r) >= 0, patterns=[z3.Select(base, r)]))
+            return
+        if kind == 'has':
+            # memory that has not been allocated yet holds no record keys
+            bound = self.arr_bound.get(base.get_id())
+            if bound is None:
+                bound = z3.IntVal(FRESH_REF_BASE)
+            self.pc.append(z3.ForAll([r], z3.Implies(r >= bound, z3.Select(base, r) == 0), patterns=[z3.Select(base, r)]))
             return
         bound = self.arr_bound.get(base.get_id())
         if bound is None:
